@@ -1,10 +1,14 @@
-import LoguruModel.Format.SpecOk
+import LoguruModel.Format.ColoredWeak
+import LoguruModel.Format.LogCallLemmas
+import LoguruModel.Format.HandlerLemmas
+import LoguruModel.Format.Refuse
 /-!
 C05 – property theorems (and their non-vacuity examples) only.  Every statement is about the model of
 `Format/Model.lean`, which is defined over the constants, guards, field re-assembly order and branch
 chains REGENERATED from /repo (`Generated/Format.lean`), and over the transcription of CPython's
 field parser (`Py/FormatSyntax.lean`, `Py/VFormat.lean`).
 -/
+set_option linter.unusedSimpArgs false
 namespace C05
 open Py Py.Fmt Format
 
@@ -248,6 +252,319 @@ theorem colored_eq_str_format_statement_false : ¬ colored_eq_str_format_stateme
   rw [colored_depth_witness.1, colored_depth_witness.2] at e
   cases e
 
+/-! ### Round 5 (a′): what `prepare_format` refuses, Python cannot format for any record -/
+
+/-- `add(format=…)` (static formats) and `emit` (dynamic formats) refuse – eagerly, with `ValueError` –
+ONLY templates that Python's own `format_map` / `format` fails on for EVERY record, every argument oracle:
+a syntax error within the three levels, or a replacement field on a fourth one.  (Python may report the
+failure later and as another exception when an earlier field fails first; it never renders a text.)
+Together with `reserialize_error_iff` / `format_map_equiv`: no template Python can format is refused, none
+is formatted differently. -/
+theorem prepare_format_refuses_only_unformattable {V} (mk : Str → Except Err Str) (t : Str) (hm : MarkupFree mk t)
+    (e : Err) (h : prepareFormat mk t = .error e) (env : Env V) :
+    ∃ e', strFormat env t = .error e' := by
+  unfold prepareFormat at h
+  rw [levels_eq.2, feedsOk_markupFree mk 2 t hm, Bool.and_true] at h
+  cases hc : prepCheck 3 t with
+  | true => rw [hc] at h; simp at h
+  | false =>
+    have hb := buildString_fails_of_prepCheck env 2 t hc .init
+    obtain ⟨e', he⟩ := (isErr_iff _).1 hb
+    exact ⟨e', by simp [strFormat, he, Except.map]⟩
+
+/-! ### Round 5 (b′): the coloured path for EVERY template – the guard `shallow` removed -/
+
+/-- EVERY template, every field name, every argument tuple/dict, all oracles, every markup parser: the
+coloured message is what `str.format` computes on the template whose literal texts are replaced by what
+the markup parser leaves of them – same text or same error kind – UNLESS `str.format` raises
+`ValueError`.  The syntactic guard `shallow` of `colored_eq_str_format_stripped` is gone: a third
+nesting level (finding F21) is precisely a case in which Python answers `ValueError("Max string
+recursion exceeded")`, and that is the only room left for a disagreement. -/
+theorem colored_eq_str_format_or_valueError {V} (mk : Str → Except Err Str) (env : Env V) (hA : env.hasArgs = true)
+    (st : Str → Str) (t : Str) (hm : ∀ p ∈ (parse t).1, mk p.lit = .ok (st p.lit)) :
+    strFormatPieces env ((parse t).1.map (mapLit st), (parse t).2) = .error .valueError ∨
+    coloredFormat mk env t = strFormatPieces env ((parse t).1.map (mapLit st), (parse t).2) := by
+  have h := colored_relV mk env hA st t hm
+  unfold coloredFormat strFormatPieces
+  rw [levels_eq.1]
+  have e0 : Gen.autoArgIndexDefault = 0 := rfl
+  rw [e0]
+  rcases h with h | h
+  · left; rw [h]; rfl
+  · right
+    cases hb : formatPieces env 1 ((parse t).1.map (mapLit st), (parse t).2) .init with
+    | error e => rw [hb] at h; rw [h.error_left]; rfl
+    | ok w =>
+      obtain ⟨x, an⟩ := w
+      rw [hb] at h
+      obtain ⟨au, e, _⟩ := h.ok_left
+      rw [e]; rfl
+
+/-- every message Python can format is formatted identically by `opt(colors=True)` – no guard on the
+template at all (markup-free literal text; format specs may hold anything) -/
+theorem colored_formats_what_python_formats {V} (mk : Str → Except Err Str) (env : Env V) (hA : env.hasArgs = true)
+    (t : Str) (hm : ∀ p ∈ (parse t).1, mk p.lit = .ok p.lit) (x : Str) (h : strFormat env t = .ok x) :
+    coloredFormat mk env t = .ok x := by
+  have h0 := colored_eq_str_format_or_valueError mk env hA id t hm
+  rw [map_mapLit_id, ← strFormat_eq_pieces, h] at h0
+  rcases h0 with h0 | h0
+  · cases h0
+  · exact h0
+
+/-- "whenever Python's formatting would raise, the logging call fails the same way": every exception
+of `str.format` other than `ValueError` (a failing lookup, `__getattr__`, `__getitem__`, conversion or
+`__format__`) is the exception of the coloured call, for every template -/
+theorem colored_fails_like_python {V} (mk : Str → Except Err Str) (env : Env V) (hA : env.hasArgs = true)
+    (t : Str) (hm : ∀ p ∈ (parse t).1, mk p.lit = .ok p.lit) (e : Err) (he : e ≠ .valueError)
+    (h : strFormat env t = .error e) : coloredFormat mk env t = .error e := by
+  have h0 := colored_eq_str_format_or_valueError mk env hA id t hm
+  rw [map_mapLit_id, ← strFormat_eq_pieces, h] at h0
+  rcases h0 with h0 | h0
+  · injection h0 with h1; exact absurd h1 he
+  · exact h0
+
+/-- hence the full statement fails ONLY where Python raises `ValueError` (F21 is such a case) -/
+theorem colored_disagrees_only_on_valueError {V} (mk : Str → Except Err Str) (env : Env V) (hA : env.hasArgs = true)
+    (t : Str) (hm : ∀ p ∈ (parse t).1, mk p.lit = .ok p.lit) (h : coloredFormat mk env t ≠ strFormat env t) :
+    strFormat env t = .error .valueError := by
+  have h0 := colored_eq_str_format_or_valueError mk env hA id t hm
+  rw [map_mapLit_id, ← strFormat_eq_pieces] at h0
+  rcases h0 with h0 | h0
+  · exact h0
+  · exact absurd h0 h
+
+/-! ### Round 5 (c′): `Logger._log` – lazy / capture / record preparation, then the message chain.
+`logCall` interprets the block order, guards, evaluation order and keyword REGENERATED from /repo. -/
+
+/-- no argument and no `opt(record=True)`: the message is `str(message)` untouched (through the markup
+parser alone under `colors`), whatever `lazy` and `capture` say – nothing is called, nothing captured.
+`strOf` is what `str()` returns; it is not assumed to be the character data of the object. -/
+theorem log_call_no_arguments {V} (mk : Str → Except Err Str) (base : Env V) (o : LogOpts) (force : V → Except Err V)
+    (rv : V) (data strOf : Str) (hr : o.record = false) :
+    logCall mk base o force rv data strOf [] [] =
+      (if o.colors then mk strOf else .ok strOf).map
+        (fun m => (m, { args := [], kwargs := [], extraUpd := [], forced := [] })) := by
+  unfold logCall
+  rw [prepare_eq]
+  cases hl : o.lazy <;> cases hc : o.colors <;>
+    simp [finishPrep, hr, forceList, zipKeys, messageOf, messageBranch_eq, hc, Except.map] <;>
+    cases mk strOf <;> rfl
+
+/-- with arguments, without `lazy` and `record`: `message.format(*args, **kwargs)` on the character data
+of the message (the coloured re-implementation under `colors`), keyword arguments copied to `extra`
+exactly under `capture` -/
+theorem log_call_formats_arguments {V} (mk : Str → Except Err Str) (base : Env V) (o : LogOpts)
+    (force : V → Except Err V) (rv : V) (data strOf : Str) (args : List V) (kwargs : List (Str × V))
+    (hl : o.lazy = false) (hr : o.record = false) (hne : (args.isEmpty && kwargs.isEmpty) = false) :
+    logCall mk base o force rv data strOf args kwargs =
+      (if o.colors then coloredFormat mk (argEnv base args kwargs) data else strFormat (argEnv base args kwargs) data).map
+        (fun m => (m, { args := args, kwargs := kwargs,
+                        extraUpd := (if o.capture && !kwargs.isEmpty then kwargs else []), forced := [] })) := by
+  unfold logCall
+  rw [prepare_eq]
+  have hb : (!args.isEmpty || !kwargs.isEmpty) = true := by
+    cases ha : args.isEmpty <;> cases hk : kwargs.isEmpty <;> simp_all
+  cases hc : o.colors <;>
+    simp only [finishPrep, hl, hr, messageOf, messageBranch_eq, hb, hc, callEnv, Bool.false_eq_true, if_false, if_true]
+  · cases strFormat (argEnv base args kwargs) data <;> rfl
+  · cases coloredFormat mk (argEnv base args kwargs) data <;> rfl
+
+/-- `opt(record=True)` ALWAYS formats – the record is one more keyword argument, so even a call without
+any argument goes through `str.format` (a lone `{` in the message then raises `ValueError`); the record
+is bound AFTER `capture` looked at the keyword arguments, so it never lands in `extra` -/
+theorem log_call_record_always_formats {V} (mk : Str → Except Err Str) (base : Env V) (o : LogOpts)
+    (force : V → Except Err V) (rv : V) (data strOf : Str) (args : List V) (kwargs : List (Str × V))
+    (hl : o.lazy = false) (hr : o.record = true) (hk : hasKey kwargs Gen.recordKey = false) :
+    logCall mk base o force rv data strOf args kwargs =
+      (if o.colors then coloredFormat mk (argEnv base args (kwargs ++ [(Gen.recordKey, rv)])) data
+       else strFormat (argEnv base args (kwargs ++ [(Gen.recordKey, rv)])) data).map
+        (fun m => (m, { args := args, kwargs := kwargs ++ [(Gen.recordKey, rv)],
+                        extraUpd := (if o.capture && !kwargs.isEmpty then kwargs else []), forced := [] })) := by
+  unfold logCall
+  rw [prepare_eq]
+  have hb : (!args.isEmpty || !(kwargs ++ [(Gen.recordKey, rv)]).isEmpty) = true := by
+    cases kwargs <;> simp
+  cases hc : o.colors <;>
+    simp only [finishPrep, hl, hr, hk, messageOf, messageBranch_eq, hb, hc, callEnv, Bool.false_eq_true, if_false, if_true]
+  · cases strFormat (argEnv base args (kwargs ++ [(Gen.recordKey, rv)])) data <;> rfl
+  · cases coloredFormat mk (argEnv base args (kwargs ++ [(Gen.recordKey, rv)])) data <;> rfl
+
+/-- a caller's own keyword named like the record is refused with `TypeError` under `opt(record=True)` –
+never silently overwritten; `"record"` is the generated keyword -/
+theorem log_call_record_keyword_conflict {V} (mk : Str → Except Err Str) (base : Env V) (o : LogOpts)
+    (force : V → Except Err V) (rv : V) (data strOf : Str) (args : List V) (kwargs : List (Str × V))
+    (hl : o.lazy = false) (hr : o.record = true) (hk : hasKey kwargs Gen.recordKey = true) :
+    logCall mk base o force rv data strOf args kwargs = .error .typeError ∧ Gen.recordKey = "record".toList := by
+  refine ⟨?_, rfl⟩
+  unfold logCall
+  rw [prepare_eq]
+  simp [finishPrep, hl, hr, hk]
+
+/-- `opt(lazy=True)`: whenever the call gets as far as a message, every argument has been called exactly
+once – the positional ones left to right, then the keyword ones in call order – the formatting (and
+`capture`) sees the RESULTS under the original keys; without `lazy` nothing is called -/
+theorem log_call_lazy_forces_once_in_order {V} (mk : Str → Except Err Str) (base : Env V) (o : LogOpts)
+    (force : V → Except Err V) (rv : V) (data strOf : Str) (args : List V) (kwargs : List (Str × V))
+    (m : Str) (s : Prep V) (h : logCall mk base o force rv data strOf args kwargs = .ok (m, s)) :
+    (o.lazy = true → s.forced = args ++ kwargs.map (·.2) ∧ forceList force args = .ok s.args ∧
+        ∃ vs, forceList force (kwargs.map (·.2)) = .ok vs ∧
+          s.kwargs = zipKeys kwargs vs ++ (if o.record then [(Gen.recordKey, rv)] else []) ∧
+          (zipKeys kwargs vs).map (·.1) = kwargs.map (·.1)) ∧
+    (o.lazy = false → s.forced = [] ∧ s.args = args) := by
+  unfold logCall at h
+  rw [prepare_eq] at h
+  constructor
+  · intro hl
+    simp only [hl, if_true] at h
+    cases h1 : forceList force args with
+    | error e => rw [h1] at h; simp at h
+    | ok as =>
+      rw [h1] at h; simp only at h
+      cases h2 : forceList force (kwargs.map (·.2)) with
+      | error e => rw [h2] at h; simp at h
+      | ok vs =>
+        rw [h2] at h; simp only at h
+        have hlen := forceList_length force _ vs h2
+        rw [List.length_map] at hlen
+        unfold finishPrep at h
+        cases hr : o.record
+        · simp only [hr, Bool.false_eq_true, if_false] at h
+          cases hm : messageOf mk base o.colors data strOf
+              { args := as, kwargs := zipKeys kwargs vs,
+                extraUpd := (if (o.capture && !(zipKeys kwargs vs).isEmpty) = true then zipKeys kwargs vs else []),
+                forced := args ++ kwargs.map (·.2) } with
+          | error e => rw [hm] at h; simp at h
+          | ok m' =>
+            rw [hm] at h; simp only [Except.ok.injEq, Prod.mk.injEq] at h
+            obtain ⟨_, hs⟩ := h
+            subst hs
+            exact ⟨rfl, rfl, vs, rfl, by simp, zipKeys_keys kwargs vs hlen⟩
+        · simp only [hr, if_true] at h
+          cases hk : hasKey (zipKeys kwargs vs) Gen.recordKey
+          · simp only [hk, Bool.false_eq_true, if_false] at h
+            cases hm : messageOf mk base o.colors data strOf
+                { args := as, kwargs := zipKeys kwargs vs ++ [(Gen.recordKey, rv)],
+                  extraUpd := (if (o.capture && !(zipKeys kwargs vs).isEmpty) = true then zipKeys kwargs vs else []),
+                  forced := args ++ kwargs.map (·.2) } with
+            | error e => rw [hm] at h; simp at h
+            | ok m' =>
+              rw [hm] at h; simp only [Except.ok.injEq, Prod.mk.injEq] at h
+              obtain ⟨_, hs⟩ := h
+              subst hs
+              exact ⟨rfl, rfl, vs, rfl, by simp, zipKeys_keys kwargs vs hlen⟩
+          · simp [hk] at h
+  · intro hl
+    simp only [hl, Bool.false_eq_true, if_false] at h
+    unfold finishPrep at h
+    cases hr : o.record
+    · simp only [hr, Bool.false_eq_true, if_false] at h
+      cases hm : messageOf mk base o.colors data strOf
+          { args := args, kwargs := kwargs,
+            extraUpd := (if (o.capture && !kwargs.isEmpty) = true then kwargs else []), forced := [] } with
+      | error e => rw [hm] at h; simp at h
+      | ok m' =>
+        rw [hm] at h; simp only [Except.ok.injEq, Prod.mk.injEq] at h
+        obtain ⟨_, hs⟩ := h
+        subst hs
+        exact ⟨rfl, rfl⟩
+    · simp only [hr, if_true] at h
+      cases hk : hasKey kwargs Gen.recordKey
+      · simp only [hk, Bool.false_eq_true, if_false] at h
+        cases hm : messageOf mk base o.colors data strOf
+            { args := args, kwargs := kwargs ++ [(Gen.recordKey, rv)],
+              extraUpd := (if (o.capture && !kwargs.isEmpty) = true then kwargs else []), forced := [] } with
+        | error e => rw [hm] at h; simp at h
+        | ok m' =>
+          rw [hm] at h; simp only [Except.ok.injEq, Prod.mk.injEq] at h
+          obtain ⟨_, hs⟩ := h
+          subst hs
+          exact ⟨rfl, rfl⟩
+      · simp [hk] at h
+
+/-- an exception raised by a lazy argument is the exception of the logging call (no message is
+formatted, no later argument is called) -/
+theorem log_call_lazy_failure {V} (mk : Str → Except Err Str) (base : Env V) (o : LogOpts)
+    (force : V → Except Err V) (rv : V) (data strOf : Str) (args : List V) (kwargs : List (Str × V))
+    (hl : o.lazy = true) (e : Err)
+    (h : forceList force args = .error e ∨
+         (∃ as, forceList force args = .ok as) ∧ forceList force (kwargs.map (·.2)) = .error e) :
+    logCall mk base o force rv data strOf args kwargs = .error e := by
+  unfold logCall
+  rw [prepare_eq]
+  rcases h with h | ⟨⟨as, h1⟩, h2⟩
+  · simp [hl, h]
+  · simp [hl, h1, h2]
+
+/-! ### Round 5 (c″): `Handler.emit` – a replaced message, the raw branch, memoised dynamic formats -/
+
+/-- `opt(raw=True)`: whatever the handler's format, whether it is static or dynamic, colorizing or not, and
+whatever coloured message the call carried, the handler emits `record["message"]` as it is when the
+handler runs – or, on a colorizing handler, the coloured rendering of exactly that text.  A coloured
+message whose stripped text is no longer the record's message (a patcher replaced it) is never emitted. -/
+theorem emit_raw_is_record_message {V} (record : Env V) (recMessage : Str) (cm : Option ColoredMsg)
+    (dynamic colorize : Bool) (fmt : Str) :
+    emitFull record recMessage cm true dynamic colorize fmt = .ok recMessage ∨
+    ∃ c, cm = some c ∧ c.stripped = recMessage ∧ colorize = true ∧
+      emitFull record recMessage cm true dynamic colorize fmt = .ok c.colorized := by
+  unfold emitFull
+  rw [emitBranch_eq]
+  cases cm with
+  | none => left; simp [cmNoneAtChain]
+  | some c =>
+    by_cases hs : c.stripped = recMessage
+    · cases colorize
+      · left; simp
+      · right; exact ⟨c, rfl, hs, rfl, by simp [cmNoneAtChain, cmDropped_eq, hs]⟩
+    · left; simp [cmNoneAtChain, cmDropped_eq, hs]
+
+/-- a message replaced after the call formatted it (patcher, filter or format function assigning
+`record["message"]`) is emitted like the message of a call WITHOUT colours: the stale coloured message is
+dropped in every branch – raw, static, dynamic, colorizing or not -/
+theorem emit_replaced_message_drops_colors {V} (record : Env V) (recMessage : Str) (c : ColoredMsg)
+    (isRaw dynamic colorize : Bool) (fmt : Str) (h : c.stripped ≠ recMessage) :
+    emitFull record recMessage (some c) isRaw dynamic colorize fmt =
+      emitFull record recMessage none isRaw dynamic colorize fmt := by
+  have hb : (c.stripped != recMessage) = true := by simpa using h
+  unfold emitFull
+  simp only [cmNoneAtChain, cmDropped_eq, hb, Bool.and_true, emitBranch_eq, Bool.true_or]
+  cases isRaw <;> rfl
+
+/-- not raw ⇒ `format_map` of the prepared format over the record, for every coloured message and all
+flags (generalises `emit_text` from the flag `cmNone` to the comparison `emit` really makes) -/
+theorem emit_full_text {V} (record : Env V) (recMessage : Str) (cm : Option ColoredMsg) (dynamic colorize : Bool)
+    (fmt : Str) : emitFull record recMessage cm false dynamic colorize fmt = strFormat record fmt := by
+  unfold emitFull
+  rw [emitBranch_eq]
+  rfl
+
+/-- DYNAMIC FORMATS, every history: however many records went through the handler before, whatever their
+templates were and whatever the `lru_cache` currently holds or evicted, each record is rendered by
+Python's `format_map` of the stripped preparation of ITS OWN template (or fails with `ValueError` exactly
+when that template is refused) – the memoisation is invisible -/
+theorem dynamic_formats_cache_transparent {V} (mk : Str → Except Err Str) (hist : List (Env V × Str)) :
+    dynRun mk hist [] = hist.map (fun rt =>
+      match prepareFormat mk rt.2 with | .error e => .error e | .ok fmt => strFormat rt.1 fmt) := by
+  have gen : ∀ (hist : List (Env V × Str)) (cache : List (Str × Str)), LruOk (prepareFormat mk) cache →
+      dynRun mk hist cache = hist.map (fun rt =>
+        match prepareFormat mk rt.2 with | .error e => .error e | .ok fmt => strFormat rt.1 fmt) := by
+    intro hist
+    induction hist with
+    | nil => intro cache _; rfl
+    | cons rt rest ih =>
+      intro cache hc
+      obtain ⟨record, template⟩ := rt
+      have ht := dynEmit_transparent mk cache record template hc
+      show (dynEmit mk cache record template).1 :: dynRun mk rest (dynEmit mk cache record template).2 = _
+      rw [ht.1, ih _ ht.2]
+      rfl
+  exact gen hist [] (by intro p hp; cases hp)
+
+/-- … and with `dynamic_format_text`: on templates with markup-free literal text that is Python's
+`format_map` of the template itself -/
+theorem dynamic_format_text {V} (mk : Str → Except Err Str) (record : Env V) (t s : Str) (hm : MarkupFree mk t)
+    (h : prepareFormat mk t = .ok s) : strFormat record s = strFormat record t :=
+  (format_map_equiv mk record t s hm h).2
+
 /-! ### non-vacuity -/
 
 example : parse "a{{b}}c{x[!:}]!r:>{w}}z".toList =
@@ -270,5 +587,40 @@ example : MarkupFree hostileMarkup "[{x:<>8}|{t:%H<b>%M</b>}]".toList := by
 example : shallow "{:>{w}} {.b[0]!r:{}}{0.real}{{".toList = true := by decide
 example : shallow "{0:{0:{{Y}}}}".toList = false := by decide
 example : Accepts 3 "{a:{b}}".toList := (prepCheck_iff 3 _).1 (by decide)
+
+/-! non-vacuity, round 5 -/
+-- a template with a third nesting level (outside `shallow`) on which Python fails with a lookup error:
+-- `colored_fails_like_python` applies, `colored_eq_str_format_partial` does not
+example : shallow "{a}{0:{0:{{Y}}}}".toList = false ∧
+    strFormat (demoEnv ["1".toList]) "{a}{0:{0:{{Y}}}}".toList = .error .keyError ∧
+    coloredFormat .ok (demoEnv ["1".toList]) "{a}{0:{0:{{Y}}}}".toList = .error .keyError := ⟨by decide, by rfl, by rfl⟩
+example : strFormat (demoEnv ["1".toList, "2".toList, "3".toList]) "{:>{}}|{.x[k]!r}".toList = .ok "1>2|3.x".toList := by rfl
+
+def demoOpts (lz cp rc cl : Bool) : LogOpts := { lazy := lz, capture := cp, record := rc, colors := cl }
+-- lazy + capture + record: the arguments are called (`!` marks a call), `k` is captured, the record is not
+example : (logCall .ok (demoEnv []) (demoOpts true true true false) (fun v => .ok (v ++ "!".toList)) "R".toList
+      "{}{k}{record}".toList "S".toList ["a".toList] [("k".toList, "b".toList)]).map
+      (fun r => (r.1, r.2.extraUpd.map (·.1), r.2.forced)) =
+    .ok ("a!b!R".toList, ["k".toList], ["a".toList, "b".toList]) := by rfl
+-- opt(record=True) without any argument still formats: a lone brace is a ValueError, without it the text is untouched
+example : (logCall .ok (demoEnv []) (demoOpts false true true false) .ok "R".toList "a{".toList "a{".toList [] []).map (·.1) =
+    .error .valueError := by rfl
+example : (logCall .ok (demoEnv []) (demoOpts false true false false) .ok "R".toList "a{".toList "S".toList [] []).map (·.1) =
+    .ok "S".toList := by rfl
+example : hasKey [("record".toList, "v".toList)] Gen.recordKey = true := by decide
+example : forceList (fun v => if v = "b".toList then .error .keyError else .ok v) ["a".toList, "b".toList, "c".toList] =
+    (.error .keyError : Except Err (List Str)) := by rfl
+
+-- a coloured message whose text a patcher replaced: raw emits the replacement, not the stale colours
+example : emitFull (demoEnv []) "patched".toList (some ⟨"orig".toList, "\x1b[31morig\x1b[0m".toList⟩) true false true [] =
+    .ok "patched".toList := by rfl
+example : emitFull (demoEnv []) "orig".toList (some ⟨"orig".toList, "\x1b[31morig\x1b[0m".toList⟩) true false true [] =
+    .ok "\x1b[31morig\x1b[0m".toList := by rfl
+-- three records, two templates, through one dynamic handler: second use of "{a}" is a cache hit
+example : dynRun .ok [(demoEnv [], "{a".toList), (demoEnv [], "x{{".toList), (demoEnv [], "x{{".toList)] [] =
+    [.error .valueError, .ok "x{".toList, .ok "x{".toList] := by rfl
+
+example : prepareFormat .ok "{a}{b:{c:{d}}}".toList = .error .valueError ∧
+    strFormat (demoEnv []) "{a}{b:{c:{d}}}".toList = .error .keyError := ⟨by rfl, by rfl⟩
 
 end C05
